@@ -50,7 +50,9 @@ Inductive rule : Set :=
 | R15_transmit_without_token | R15_transmit_while_outstanding | R15_round_robin | R15_reply_not_requested
 | R15_reply_invalid | R15_timeout_not_requested | R15_await_without_request
 | R15_asked_after_all_declined | R15_not_passed_after_all_declined | R15_passed_before_all_declined
-| R15_cycle_after_hold_time | R15_no_reply_no_timeout.
+| R15_cycle_after_hold_time | R15_no_reply_no_timeout
+(* C06 (appended) *)
+| R06_no_backoff.
 
 Inductive pid : Set := PC01 | PC05 | PC06 | PC11 | PC12 | PC13 | PC15.
 Definition rule_prop (r : rule) : pid :=
@@ -70,6 +72,7 @@ Definition rule_prop (r : rule) : pid :=
   | R15_reply_invalid | R15_timeout_not_requested | R15_await_without_request
   | R15_asked_after_all_declined | R15_not_passed_after_all_declined | R15_passed_before_all_declined
   | R15_cycle_after_hold_time | R15_no_reply_no_timeout => PC15
+  | R06_no_backoff => PC06
   end.
 
 (* ------------------------------------------------------------------------------------------ *)
@@ -600,8 +603,45 @@ Definition mon_poll2 (p : params) (napps : nat) (m : mon) (g : mon2) (s : pstep)
   let txend := match tx_end with Some e => Some e | None => l_txend g end in
   let spur := if consumed then Nat.ltb (s_consumed s) (length (s_rx s))
               else if looks then false else (l_spur g || grew) in   (* growth during a poll that does not look is seen later *)
+  (* ---- C06_backoff (theorem of Properties/C06.v, same hypotheses): while waiting for an answer - of
+     a data request, of a GAP poll, of a GAP poll of the post-claim scan - the first complete telegram
+     in the buffer that is not this answer makes the station give up the token: the poll ends in
+     ActiveIdle, nothing transmitted, no application called, exactly that telegram consumed.
+     "Not the answer": for a data request to addr anything but SC or a response from addr to TS; for a
+     GAP poll of a anything but a response from a to TS (so every token, SC, request, foreign
+     response).  The poll must look at the buffer: PHY not busy, later than the predicted end of the
+     own transmission. *)
+  let e_backoff :=
+    if looks then
+      match decode (s_rx s) with
+      | Ok (Accept t n) =>
+          let gap_reply (a : Z) := match t with
+                                   | TData h _ => match h_fc h with
+                                                  | FcResponse _ _ => (h_sa h =? a) && (h_da h =? ts)
+                                                  | _ => false
+                                                  end
+                                   | _ => false
+                                   end in
+          let unexpected :=
+            if state_kind_eqb k0 KAwaitDataResponse then
+              match m_out m with
+              | Some (_, addr) => negb (match t with TShortConf => true | TToken _ _ => false | _ => gap_reply addr end)
+              | None => false
+              end
+            else if waiting_c12 then
+              match g_wait g with Some a => negb (gap_reply a) | None => false end
+            else false in
+          if unexpected
+          then check (state_kind_eqb k1 KActiveIdle &&
+                      match s_tx s with None => true | Some _ => false end &&
+                      match s_calls s with [] => true | _ => false end &&
+                      Nat.eqb (s_consumed s) n) R06_no_backoff
+          else []
+      | _ => []
+      end
+    else [] in
   (mkMon2 wait expect visit last2 hend scan turn2 decl2 ref2 txend spur,
-   e_found ++ e_tok ++ e_sweep ++ e13 ++ e_scan ++ e_rr ++ e_end ++ e_live).
+   e_found ++ e_tok ++ e_sweep ++ e13 ++ e_scan ++ e_rr ++ e_end ++ e_live ++ e_backoff).
 
 (* ---- whole transcript ---- *)
 (* accumulator: monitor state, the API call that was the previous event (if any), violations *)
